@@ -52,13 +52,14 @@ PROP = {'streams': [('c09', 2000, 200000)],
               'annotations_parser_accepts_more',
               'annotation_null_becomes_empty',
               'annotated_namespace_roundtrip',
-              'annotated_namespace_strip'],
+              'annotated_namespace_strip',
+              'annotated_fragment_roundtrip'],
  'assumptions': ['theorems cover type expressions, name resolution and the syntax of ALL declaration kinds and whole fragments (standard and enum '
                  'entities, actions with parents / appliesTo / context, common types, namespace blocks: fragment_roundtrip, up to the spelled-out '
                  'normal form normFragment), the BTreeMap collection of parsed declarations with its duplicate errors (collectFragment; model only, '
                  'no driver op: the parse-frag correspondence still sorts on both sides and skips duplicates), the refusal cases of fmt.rs '
-                 '(toCedarChecked; model only) and annotation maps on declarations (annotations_roundtrip, annotated_namespace_roundtrip; whole '
-                 'annotated fragments incl. namespace annotations are stated, not proved: AnnotatedFragmentRoundtrip); annotations on record '
+                 '(toCedarChecked; model only) and annotation maps on declarations (annotations_roundtrip, annotated_namespace_roundtrip) and on namespace blocks '
+                 '(annotated_fragment_roundtrip, at the level of the parsed items; model only, no driver op); annotations on record '
                  'attributes, lexing/escapes, action attributes and ValidatorSchema construction are covered by the four-way differential run only',
                  "the model's tokens are produced from Rust's printed text by the harness's lexer (string literals unescaped by the real "
                  'to_unescaped_string)',
@@ -82,7 +83,7 @@ TEXT = ('Lean theorems over a thin model of schema TYPE EXPRESSIONS and NAME RES
  '(collect_rejects_duplicates). fmt.rs refuses exactly on an entity/common name collision in a NAMED namespace or a non-record entity shape '
  '(toCedar_refuses_iff), and the two recorded rebinding defects are not refused (finding_clash_not_refused, finding_shadow_not_refused). Annotation '
  'maps print and re-read as themselves with an absent value turned into "" (annotations_roundtrip), also on every declaration of a namespace body '
- '(annotated_namespace_roundtrip); whole annotated fragments are stated only (AnnotatedFragmentRoundtrip). '
+ '(annotated_namespace_roundtrip) and of a whole fragment with annotated namespace blocks (annotated_fragment_roundtrip). '
  'Annotations on record attributes, lexing and everything else are NOT modelled: they are covered by the four-way differential run '
  'on the implementation (JSON -> schema vs JSON -> to_cedarschema -> schema, Cedar -> schema vs Cedar -> to_json_value -> schema, one further hop '
  'each, equality of ValidatorSchema plus identical policy/request/entity validation verdicts).',
